@@ -370,9 +370,25 @@ def regErrStr : Registry.RegErr → String
 /-- hyper discards the body of 204 / 304 replies -/
 def effectiveBody (status : Nat) (body : Text) : Text := if status == 204 || status == 304 then [] else body
 
+/-- the scripted exchanges of a request: (status headers body)* -/
+def pagesOf : List Text → List Registry.Page
+  | st :: hd :: body :: rest =>
+    let s := natOfText st
+    ⟨s, hd, effectiveBody s body⟩ :: pagesOf rest
+  | _ => []
+
 def httpFetch (f : List Text) : String :=
   match f with
-  | ad :: name :: _ :: status :: _ :: body :: _ =>
+  | ad :: name :: _ :: rest@(status :: _ :: body :: _) =>
+    if String.ofList ad == "github" then
+      let path := Registry.requestPath .github name
+      let (res, links) := Registry.githubFetch (pagesOf rest)
+      -- a followed link is requested as its path (the scripted server's own address is written {BASE})
+      let paths := path :: links.map fun l => (stripPrefix "{BASE}".toList l).getD l
+      match res with
+      | .ok r => s!"ok {listStr r.versions} tags=[] paths={listStr paths}"
+      | .error e => s!"err {regErrStr e} paths={listStr paths}"
+    else
     match adapterOf ad with
     | none => "BAD"
     | some a =>
